@@ -5,13 +5,15 @@ from __future__ import annotations
 import numpy as np
 
 
-def of_array(a, lists=False):
+def of_array(a, lists=False, floats=True):
     a = np.asarray(a)
     out = []
     if a.dtype.kind in "iu" or (a.dtype.kind == "f" and a.size and np.all(a == np.round(a)) and np.all(np.abs(a) < 100)):
         for dt in (np.int8, np.int32, np.int64):
             if a.size == 0 or (np.all(a >= np.iinfo(dt).min) and np.all(a <= np.iinfo(dt).max)):
                 out.append((f"dtype {np.dtype(dt).name}", a.astype(dt)))
+        if floats:                          # the same integer values as doubles (bond variables are often written +-1.0): not for index arrays
+            out.append(("dtype float64", a.astype(np.float64)))
     if a.ndim >= 1 and a.size:
         big = np.zeros(tuple(2 * s for s in a.shape), dtype=a.dtype)
         big[tuple(slice(None, None, 2) for _ in a.shape)] = a
